@@ -125,7 +125,12 @@ package wallet
 // ... and it is saved only at the end of a batch the mint had signatures for: the stored
 // counter never runs into the trailing empty batches (which are the restore gap limit)
 //@   calls (storage.WalletDB).IncrementKeysetCounter asserts @nonempty [C19] len(restoreResponse.Signatures) > 0
-//@   loop 3 invariant savedCounter == wdb.counter[keyset.Id] % 4294967296
+// ... and it IS saved after every batch the mint had signatures for, whatever the state of the proofs
+// (spent outputs occupy their counters just the same): between two batches the number of saves equals
+// the number of batches with signatures, and only batches without any signature count as empty
+//@   loop 1 invariant rst.sigbatches - old(rst.sigbatches) == wdb.saves - old(wdb.saves)
+//@   loop 2 invariant rst.sigbatches - old(rst.sigbatches) == wdb.saves - old(wdb.saves)
+//@   loop 3 invariant savedCounter == wdb.counter[keyset.Id] % 4294967296 && rst.sigbatches - old(rst.sigbatches) == wdb.saves - old(wdb.saves)
 
 // ---- proof selection and fees (C18)
 //@ macro wfeesum(ps, mint, n) = wfee.sum(seq(ps), mint.activeKeyset.Id, mint.activeKeyset.InputFeePpk, mapkeys(mint.inactiveKeysets), mapvals(mint.inactiveKeysets), n)
@@ -205,6 +210,57 @@ package wallet
 //@   requires w != nil && w.db != nil && w.mints != nil && winv()
 //@   calls (*Wallet).createBlindedMessages asserts @fresh [C19] counter == nil || *counter >= wal.signedupto[keysetId]
 
+// A-NEWMINT (assumed, listed in the evidence): AddMint is only called for a mint that is not in w.mints,
+// and the keysets of such a mint have no stored counter and nothing derived or signed from them, so the
+// records it saves (counter 0, as fetched from the mint) keep the stored counters past everything signed.
+// The known finding of swapToTrusted (below) is exactly a history in which this is false.
+//@ func (*Wallet).AddMint
+//@   tags C19
+//@   trusted
+//@   fresh
+//@   modifies wdb.counter, map(w.mints)
+//@   ensures r1 == nil ==> r0 != nil
+//@   assumes old(winv()) ==> winv()
+
+// A swap request derives its outputs from the STORED counter of the mint's active keyset (fresh:
+// nothing at or above it may have been signed), for exactly that keyset.
+//@ func (*Wallet).createSwapRequest
+//@   tags C19
+//@   requires w != nil && w.db != nil && mint != nil && winv()
+//@   modifies wal.derivedupto
+//@   calls (*Wallet).createBlindedMessages asserts @fresh [C19] counter != nil && *counter == wdb.counter[keysetId] && *counter >= wal.signedupto[keysetId] && keysetId == mint.activeKeyset.Id
+//@   presumes hexok(mint.activeKeyset.Id) ==> len(mint.activeKeyset.Id) == 16
+//@   ensures @req [C19] err == nil ==> result.keyset != nil && len(result.secrets) == len(result.outputs) && len(result.rs) == len(result.outputs)
+//@   ensures @reqkeyset [C19] err == nil ==> result.keyset.Id == mint.activeKeyset.Id
+//@   ensures @fewoutputs [C19] err == nil ==> len(result.outputs) <= 2147483648
+//@   ensures @derived [C19] err == nil ==> wal.derivedupto[mint.activeKeyset.Id] == wdb.counter[mint.activeKeyset.Id] + len(result.outputs)
+//@   ensures @others [C19] err == nil ==> (forall id Str :: id != mint.activeKeyset.Id ==> wal.derivedupto[id] == old(wal.derivedupto)[id])
+
+// the swap request has its outputs signed: everything derived so far may now be signed
+//@ func swap
+//@   tags C19
+//@   requires @wellformed [C06,C10] swapRequest.keyset != nil && len(swapRequest.outputs) == len(swapRequest.secrets)
+//@   requires @rsnonnil [C06,C10] forall j :: 0 <= j && j < len(swapRequest.rs) ==> swapRequest.rs[j] != nil
+//@   requires @keysnonnil [C06,C10] forall a :: (a in swapRequest.keyset.PublicKeys) ==> swapRequest.keyset.PublicKeys[a] != nil
+//@   modifies wal.signedupto
+//@   ensures @raised [C19] signedraised()
+
+// swap to the default mint: (SIG_ALL tokens only) one swap at the token's mint, then melt there and mint here
+//@ func (*Wallet).swapToTrusted
+//@   tags C19
+//@   requires w != nil && w.db != nil && w.mints != nil && mint != nil && winv()
+//@   ensures @past [C19] r1 == nil ==> winv()
+// when no swap was needed (no SIG_ALL token) the counters are as they were ...
+//@   calls (*Wallet).swapProofs asserts @plainpath [C19] wal.signedupto == old(wal.signedupto) ==> winv()
+// ... and after the SIG_ALL swap the stored counter must be past the outputs that swap had signed
+// (it is not: known finding; it also surfaces as the winv() precondition of swapProofs)
+//@   calls (*Wallet).swapProofs asserts @sigallpath [C19] wal.signedupto != old(wal.signedupto) ==> winv()
+
+//@ func (*Wallet).swapProofs
+//@   tags C19
+//@   requires w != nil && w.db != nil && w.mints != nil && from != nil && to != nil && winv()
+//@   ensures @past [C19] r1 == nil ==> winv()
+
 // Receive paths (C19, increment only): after the swap the stored counter of the request's keyset is
 // advanced by exactly the number of outputs of that request. (That these outputs were derived from
 // the stored counter of the same keyset is createSwapRequest's code and is not under contract: the
@@ -212,11 +268,17 @@ package wallet
 //@ func (*Wallet).Receive
 //@   tags C19
 //@   requires w != nil && w.db != nil && w.mints != nil && winv()
+// after a successful receive the stored counters are past everything that may have been signed
+//@   ensures @past [C19] r1 == nil ==> winv()
 //@   calls (storage.WalletDB).IncrementKeysetCounter asserts @count [C19] keysetId == req.keyset.Id && num == len(req.outputs) % 4294967296
 //@ func (*Wallet).ReceiveHTLC
 //@   tags C19
 //@   requires w != nil && w.db != nil && w.mints != nil && winv()
+//@   ensures @past [C19] r1 == nil ==> winv()
 //@   calls (storage.WalletDB).IncrementKeysetCounter asserts @count [C19] keysetId == req.keyset.Id && num == len(req.outputs) % 4294967296
 //@ func (*Wallet).ReclaimUnspentProofs
 //@   tags C19
+//@   requires w != nil && w.db != nil && w.mints != nil && winv()
+//@   ensures @past [C19] r1 == nil ==> winv()
+//@   loop 1 invariant winv()
 //@   calls (storage.WalletDB).IncrementKeysetCounter asserts @count [C19] keysetId == req.keyset.Id && num == len(req.outputs) % 4294967296
